@@ -2192,16 +2192,23 @@ return 1;""",
         PyObj = fmt_func.PY_PyObject
         if "type" in node.python:
             selected = node.python["type"][:]
-            for auto in ["del"]:
+            for auto in ["del", "dealloc"]:
                 # Make some methods are there
                 if auto not in selected:
                     selected.append(auto)
         else:
-            selected = ["del"]
+            selected = ["del", "dealloc"]
 
         # Dictionary of methods for bodies
         default_body = dict(richcompare=self.not_implemented)
         default_body["del"] = self.tp_del
+        default_body["dealloc"] = self.tp_dealloc
+
+        # tp_dealloc calls tp_del, which is defined after it.
+        fmt.PY_type_method = "tp_del"
+        fmt_func.PY_type_del = wformat(template, fmt)
+        output.append(
+            wformat("static void {PY_type_del} ({PY_PyObject} *self);", fmt_func))
 
         self._push_splicer("type")
         for typename in typenames:
@@ -2970,6 +2977,21 @@ setup(
         return [
             "Py_INCREF(Py_NotImplemented);",
             "return Py_NotImplemented;"
+        ]
+
+    def tp_dealloc(self, node, msg, ret):
+        """default method for tp_dealloc.
+        Python 3 never calls tp_del of a static type, so release
+        the wrapped object when the Python object is deallocated.
+
+        Args:
+            node - ast.ClassNode
+            msg  - 'dealloc'
+            ret  - ''
+        """
+        return [
+            "{PY_type_del}(self);",
+            "Py_TYPE(self)->tp_free((PyObject *) self);",
         ]
 
     def tp_del(self, node, msg, ret):
